@@ -459,6 +459,40 @@ theorem reassembly_lem (P : Nat) (msgOf : Nat → Bytes) (segsOf : Nat → List 
   · intro d _; exact List.not_mem_nil
   · intro s _; exact slotInv_init _
 
+/-- payload sizes of the sender's segments: none exceeds `P`, every segment but the last is exactly `P` -/
+theorem sent_payloads_fit_lem (P seq : Nat) (m : Bytes) (hP : 0 < P) (ds : List Dg)
+    (h : segments P seq m = some ds) :
+    ∀ d ∈ ds, d.payload.length ≤ P ∧ d.encode.length ≤ P + 8 ∧ (d.idx ≠ d.maxIdx → d.payload.length = P) := by
+  intro d hd
+  have key : d.payload.length ≤ P ∧ (d.idx ≠ d.maxIdx → d.payload.length = P) := by
+    unfold segments at h
+    split at h
+    · cases h; simp at hd; subst hd; simpa
+    · simp only at h
+      split at h
+      · cases h
+      · cases h
+        simp only [List.mem_map, List.mem_range] at hd
+        obtain ⟨i, hi, rfl⟩ := hd
+        simp only [segPayload]
+        have hdm := Nat.div_add_mod m.length P
+        have hml := Nat.mod_lt m.length hP
+        rw [Nat.mul_comm] at hdm
+        split
+        · rename_i hik
+          subst hik
+          simp only [List.length_drop]
+          refine ⟨by omega, fun hne => absurd rfl hne⟩
+        · rename_i hik
+          simp only [List.length_take, List.length_drop]
+          have hlt : i < m.length / P := by omega
+          have h1 : (i + 1) * P ≤ m.length / P * P := Nat.mul_le_mul_right P hlt
+          rw [Nat.add_mul, Nat.one_mul] at h1
+          refine ⟨by omega, fun _ => by omega⟩
+  refine ⟨key.1, ?_, key.2⟩
+  have := key.1
+  simp [Dg.encode, be32, be16]; omega
+
 /-! ### spec-only facts -/
 
 /-- the outputs of `spec` that are messages of sequence number `s` -/
